@@ -29,6 +29,21 @@ var DefaultRuleNames = []string{
 var NoSuggestRuleNames = []string{"FieldsOnCorrectTypeWithoutSuggestions", "KnownArgumentNamesWithoutSuggestions",
 	"KnownTypeNamesWithoutSuggestions", "ValuesOfCorrectTypeWithoutSuggestions"}
 
+// NoSuggestSet: the default list with the four suggestion-free variants in place of their standard rules
+var NoSuggestSet string
+
+func init() {
+	var ns []string
+	for _, n := range DefaultRuleNames {
+		switch n {
+		case "FieldsOnCorrectType", "KnownArgumentNames", "KnownTypeNames", "ValuesOfCorrectType":
+			n += "WithoutSuggestions"
+		}
+		ns = append(ns, n)
+	}
+	NoSuggestSet = strings.Join(ns, ",")
+}
+
 func init() {
 	for _, r := range []validator.Rule{
 		rules.FieldsOnCorrectTypeRule, rules.FragmentsOnCompositeTypesRule, rules.KnownArgumentNamesRule, rules.KnownDirectivesRule,
